@@ -128,6 +128,8 @@ def main():
                 key = "%s|%s|%s" % (kind, why, "unknown-name:" + name if name not in table else ("m%d" % mode))
                 chk.violation(key, "%s: generator %s, rules say %s (%s) %s" % (cell, "accepts" if accepted else "rejects", "accept" if acc else "reject", why, errtxt[:120]),
                               {"cell": cell, "name": name, "level": level, "mode": mode, "window": w, "error": errtxt})
+            if "draw cap" in errtxt:
+                chk.violation("initialisation-does-not-terminate|m%d" % mode, "%s: the request was not answered: initialize() consumed more than 2e6 deviates (%s)" % (cell, errtxt[:80]), {"cell": cell})
             if "THROWS-BUT-INITIALIZED" in errtxt:
                 chk.violation("throws-but-initialized|m%d" % mode, "%s: initialize() threw but is_initialized() is true" % cell, {"cell": cell})
             if wf == "REJECTED-BUT-SHOOTS":
